@@ -166,9 +166,16 @@ func drawEquivalentPair(rt *rapid.T) (string, string) {
 			a = fmt.Sprintf("Decimal(%d,%d)", p, s)
 		}
 	case 2:
-		a, b = "Map(String, String)", "Map(String,String)"
-		if rapid.Bool().Draw(rt, "dt") {
-			a, b = "DateTime64(3, 'UTC')", "DateTime64(3,'UTC')"
+		// the same type written with different blanks after its commas (none, one, several, a tab)
+		parts := rapid.SampledFrom([][]string{{"Map(String", "String)"}, {"DateTime64(3", "'UTC')"}, {"Map(String", "UInt64)"}, {"Tuple(Int8", "String", "Date)"},
+			{"Decimal(10", "2)"}, {"Map(String", "Map(String", "Int8))"}, {"Tuple(a Int8", "b Array(String)", "c Map(String", "Date))"}}).Draw(rt, "comma-type")
+		sp := func(l string) string {
+			return rapid.SampledFrom([]string{"", " ", " ", "  ", "\t", " \t ", "   "}).Draw(rt, l)
+		}
+		a, b = parts[0], parts[0]
+		for _, p := range parts[1:] {
+			a += "," + sp("blank-a") + p
+			b += "," + sp("blank-b") + p
 		}
 	case 3:
 		a, b = "DateTime", fmt.Sprintf("DateTime('%s')", rapid.SampledFrom([]string{"UTC", "Europe/Berlin"}).Draw(rt, "tz"))
